@@ -3,6 +3,7 @@ package sync
 import (
 	"fmt"
 	"os"
+	"os/exec"
 	"net/http"
 	"net/http/httptest"
 	"runtime"
@@ -141,3 +142,55 @@ func (s stopAfter) Pace(el time.Duration, hits uint64) (time.Duration, bool) {
 	return time.Millisecond, false
 }
 func (s stopAfter) Rate(time.Duration) float64 { return 1000 }
+
+// cliWorkers: the attack command against four slow hosts with -workers=1 -max-workers=N and
+// optionally -max-connections (a per-host limit of the transport, not a limit on workers): the
+// number of requests in flight at the hosts must reach N (grow on demand) and never exceed it.
+// Wire: "<prop> cliw<i>.0 cli.workers;nt -4 <max-workers> <max-connections or 0> <hosts> <peak in flight> <requests>"
+func cliWorkers(prop string, idx int, seed int64) (string, bool) {
+	bin := os.Getenv("VERIF_VEGETA")
+	if bin == "" {
+		return "", false
+	}
+	if _, err := os.Stat(bin); err != nil {
+		return "", false
+	}
+	var cur, peak, total int64
+	h := http.HandlerFunc(func(w http.ResponseWriter, r *http.Request) {
+		n := atomic.AddInt64(&cur, 1)
+		atomic.AddInt64(&total, 1)
+		for {
+			p := atomic.LoadInt64(&peak)
+			if n <= p || atomic.CompareAndSwapInt64(&peak, p, n) {
+				break
+			}
+		}
+		time.Sleep(300 * time.Millisecond)
+		atomic.AddInt64(&cur, -1)
+		w.Write([]byte("ok"))
+	})
+	var targets strings.Builder
+	var srvs []*httptest.Server
+	for i := 0; i < 4; i++ {
+		s := httptest.NewServer(h)
+		srvs = append(srvs, s)
+		fmt.Fprintf(&targets, "GET %s/\n", s.URL)
+	}
+	defer func() {
+		for _, s := range srvs {
+			s.Close()
+		}
+	}()
+	maxw := []int{3, 4}[(int(seed)+idx)%2]
+	conns := []int{0, 1, 2}[idx%3]
+	args := []string{"attack", "-rate", "50", "-duration", "1200ms", "-timeout", "5s", "-workers", "1", "-max-workers", fmt.Sprint(maxw), "-output", os.DevNull}
+	if conns > 0 {
+		args = append(args, "-max-connections", fmt.Sprint(conns))
+	}
+	cmd := exec.Command(bin, args...)
+	cmd.Stdin = strings.NewReader(targets.String())
+	if err := cmd.Run(); err != nil {
+		return "", false
+	}
+	return fmt.Sprintf("%s cliw%d.0 cli.workers;nt -4 %d %d 4 %d %d", prop, idx, maxw, conns, atomic.LoadInt64(&peak), atomic.LoadInt64(&total)), true
+}
